@@ -3,6 +3,7 @@ C10 — Listings tell the truth about the archive (summary logic).
 -/
 import SevenZ.Model.Listing
 import SevenZ.Model.Assign
+import SevenZ.Props.C01
 namespace SevenZ.C10
 open SevenZ SevenZ.Impl
 
@@ -47,5 +48,50 @@ theorem solid_iff (nums : List Nat) : isSolid nums = true ↔ ∃ n ∈ nums, n 
   simp [isSolid]
 
 example : needsPassword false [[[0x21]], [aesId, [0x21]]] = true ∧ needsPassword false [[[0x21]]] = false := by decide
+
+/-! ### what the per-member listing reports, for every session py7zr writes -/
+
+/-- what `list()` / `getinfo()` report of a slot: the uncompressed size and the CRC-32 (nothing for a member
+    without a stream) -/
+def reported (s : Slot4) : Option (Nat × Option Nat) := s.map (fun x => (x.2.2.1, x.2.2.2))
+
+/-- the (size, CRC) the format assigns in a single folder are the sizes and CRCs handed in, member by member -/
+theorem singleFolder_reported : ∀ (ms : List WMember) (off : Nat),
+    (singleFolderMembers (ms.map memberFile) off ((dataMembers ms).map (fun m => m.blocks.flatten.length))
+      ((dataMembers ms).map (fun m => some (crc32 m.blocks.flatten)))).map (fun x => reported x.stream) =
+    ms.map (fun m => if m.emptystream then none else some (m.blocks.flatten.length, some (crc32 m.blocks.flatten)))
+  | [], _ => rfl
+  | m :: ms, off => by
+    cases he : m.emptystream with
+    | true =>
+      have hd : dataMembers (m :: ms) = dataMembers ms := by simp [dataMembers, he]
+      rw [hd]
+      simp only [List.map_cons, singleFolderMembers, memberFile, he, if_true]
+      rw [← singleFolder_reported ms off]
+      simp [reported, memberFile]
+    | false =>
+      have hd : dataMembers (m :: ms) = m :: dataMembers ms := by simp [dataMembers, he]
+      rw [hd]
+      simp only [List.map_cons, singleFolderMembers, memberFile, he, Bool.false_eq_true, if_false]
+      rw [← singleFolder_reported ms (off + m.blocks.flatten.length)]
+      simp [reported, memberFile]
+
+/-- **Listings tell the truth about every archive a create session writes.** For every member list, the cursor of
+    `_real_get_contents` on the values the session stores (the source of `list()`, `getinfo()` and `files`) gives
+    every member with a stream the length of exactly the bytes that were written for it and the CRC-32 of exactly
+    those bytes, and gives a member without a stream nothing (reported as size 0, no CRC) — whatever the number of
+    members, their sizes and their order. -/
+theorem listing_truth_on_session (ms : List WMember) :
+    ∃ slots, Impl.assign (ms.map (·.emptystream)) [(dataMembers ms).length]
+        ((dataMembers ms).map (fun m => m.blocks.flatten.length))
+        ((dataMembers ms).map (fun m => some (crc32 m.blocks.flatten))) = some slots ∧
+      slots.map reported =
+        ms.map (fun m => if m.emptystream then none else some (m.blocks.flatten.length, some (crc32 m.blocks.flatten))) := by
+  refine ⟨_, C01.py7zr_cursor_on_session ms, ?_⟩
+  rw [List.map_map]
+  exact singleFolder_reported ms 0
+
+example : (singleFolderMembers ([{ name := [97], emptystream := false, blocks := [[1, 2], [3]] }, { name := [98], emptystream := true }].map memberFile) 0 [3] [some 7]).map
+    (fun x => reported x.stream) = [some (3, some 7), none] := by decide
 
 end SevenZ.C10
